@@ -7,28 +7,8 @@ import sys
 HERE = os.path.dirname(os.path.dirname(os.path.abspath(__file__)))
 
 # id -> (technique, level text, level note, design ref)
-CHECKS = {
-    "C13": ("exhaustive bounded enumeration + seeded hypothesis vs an independent reference matcher and precedence model",
-            "Every (pattern, name) pair below the bound (quick: <=4 tokens x <=4 chars, thorough: <=5 x <=5) is compared "
-            "with a matcher written from the manual; rule precedence is enumerated for all rule lists of length <=2 (quick) / <=3 "
-            "(thorough) on a small system and sampled beyond. Decided below the bound, sampled above it.",
-            "Trusts pv/oracle/qnref.py as the reading of the manual; bracket sets without - ] [ ^ \\ !; star runs of length <=2.",
-            "DESIGN.md 5/C13"),
-}
-
-CHECKS.update({
-    "C01": ("seeded hypothesis over a statement grammar, line/token mutation of real files and raw byte files, driving driver.main in-process; crash bucketing + delta debugging",
-            "Totality of a whole run over generated source trees: no escaping exception, exit status in {0,2,3}, every module analysed or reported "
-            "with its path, output inventory complete, unparsable unimported file is inert (metamorphic). Sampled, not exhaustive: absence is not established.",
-            "Hang clause approximated by a 90 s alarm confirmed in a fresh process. Inputs restricted to trees pydoctor documents as acceptable (roots exist, packages have __init__.py).",
-            "DESIGN.md 5/C01"),
-    "C19": ("exhaustive bounded enumeration + seeded hypothesis vs an executable reading of the visitor docstrings; recording extensions on the real ASTBuilder",
-            "Every ordered tree of <=4 (thorough <=5) nodes x every pruning assignment x 20 extension-timing sets is walked by the real Visitor.walkabout and the trace "
-            "compared event by event with the documented contract; the real AST builder is walked over grammar-generated modules with recording extensions of all four timings "
-            "and the scope stack is checked after every module. Decided below the bound, sampled above.",
-            "Pruning raised by extensions or in depart_ is outside the statement; expression nodes entered through generic_visit (visit only, by its documentation) are not required to be left.",
-            "DESIGN.md 5/C19"),
-})
+CHECKS = {k: (v['technique'], v['level_text'], v['level_note'], v['design_ref'])
+          for k, v in json.load(open(os.path.join(HERE, 'tools', 'manifest_table.json'))).items()}
 
 NOT_YET = {}
 
